@@ -21,7 +21,8 @@ RULE = ("message sets are produced by really running ProgGen programs (remote su
         "exception, strict subsets are never complete, exactly the present messages appear in the partial tree, states from "
         "different orders of one subset are equal; (d) parse_stream yields completed tasks during the stream and incomplete ones "
         "once at the end. A third of the programs run with a second, failing destination and/or raising exception extractors, so the tasks "
-        "contain eliot:destination_failure reports and extractor tracebacks; one case in 40 has an action with 250-400 direct children. non-trivial = task with >=2 nesting levels or a remote sub-task; distinct by (task shape, order class)")
+        "contain eliot:destination_failure reports and extractor tracebacks; one case in 40 has an action with 250-400 direct children, one in 40 a stream with 1001-1200 top-level actions open at the same "
+        "time; 8% of the untyped messages carry a user field named action_status. non-trivial = task with >=2 nesting levels or a remote sub-task; distinct by (task shape, order class)")
 ASSUMPTIONS = ["message sets come from well-formed tasks (each position used once)"]
 EXHAUSTIVE_NOTE = "permutations and subsets of every task with <= 6 (quick) / <= 7 (thorough) messages are enumerated completely"
 
@@ -137,7 +138,7 @@ def run_case(spec):
     with_faults = rng.random() < 0.35
     with_bad = with_faults and rng.random() < 0.6
     g = gen.ProgGen(rng, max_depth=rng.choice([2, 3]) if small else rng.choice([3, 4, 5]), max_nodes=rng.choice([3, 5]) if small else rng.choice([12, 30]),
-                    value_depth=0, fail_p=0.5 if with_faults else 0.3, allow_tb=True, remote_vias=("same", "thread"), defer_p=0.3,
+                    value_depth=0, fail_p=0.5 if with_faults else 0.3, allow_tb=True, remote_vias=("same", "thread"), defer_p=0.3, status_field_p=0.08,
                     extra_styles=(("pre_created",) if with_bad else ("ctx_finish_inside", "pre_created")) if with_faults else ())
     prog = g.program()
     if spec["i"] % 40 == 7:
